@@ -147,8 +147,9 @@ func (f *field) TokenReader() xml.TokenReader {
 		if val == "" {
 			continue
 		}
-		// Some list types are only allowed to have a single value.
-		if firstVal && f.typ != "list-multi" && f.typ != "jid-multi" && f.typ != "text-multi" {
+		// Only the multi types and hidden fields may have more than one value, all
+		// other types use the first one.
+		if firstVal && f.typ != "list-multi" && f.typ != "jid-multi" && f.typ != "text-multi" && f.typ != "hidden" {
 			break
 		}
 		switch f.typ {
